@@ -197,6 +197,7 @@ def run(tier):
     rule_R8(res, prog)
     rule_R9(res, prog)
     rule_R10(res, prog)
+    rule_R11(res, prog)
     return res.finish()
 
 
@@ -788,3 +789,67 @@ def rule_R10(res, prog):
                                              fn.relfile, ln, fn.name, crl, crl), file=fn.relfile, line=ln)
                         res.instance(rid, "%s:%s psX509AuthenticateCRL(%s) under %s->authenticated == 0" % (fn.name, ln, crl, crl), ok, finding=f_)
     res.floor(rid, 1)
+
+
+def rule_R11(res, prog):
+    """Parser / validator agreement on the certificate version: psX509AuthenticateCert applies the basicConstraints CA
+    test only to issuers with version > K (v3), so the parser may accept only versions for which that test applies -
+    every arm of the `switch (cert->version)` in parse_single_cert whose value is <= K must be an error exit.  (A v1 / v2
+    certificate has no basicConstraints; accepted, it could issue certificates without ever passing the CA test.)"""
+    from sa import cfgutil as cu
+    rid = "C03.R11"
+    res.rule(rid, "the parser accepts only certificate versions to which the validator's CA test applies")
+    fa = prog.fn("psX509AuthenticateCert")
+    K = None
+    for b in fa.blocks:
+        t = b.get("term")
+        if t is None or "c" not in t:
+            continue
+        for m in walk(t["c"]):
+            if m.get("k") == "bin" and m["op"] in (">", ">=") and (strip(m["l"]) or {}).get("f") == "version" and (strip(m["r"]) or {}).get("k") == "int":
+                K = strip(m["r"])["v"] if m["op"] == ">" else strip(m["r"])["v"] - 1
+    if K is None:
+        raise AnalysisBroken("C03.R11: version guard of the CA test not found in psX509AuthenticateCert")
+    fp = prog.fn("parse_single_cert")
+    sws = [b for b in fp.blocks if (b.get("term") or {}).get("k") == "switch" and
+           any(m.get("k") == "mem" and m.get("f") == "version" for m in walk(b["term"].get("c") or {}))]
+    if not sws:
+        raise AnalysisBroken("C03.R11: switch over cert->version not found in parse_single_cert")
+    n = 0
+    for sw in sws:
+        for sc in sw["succ"]:
+            cv = sc.get("case")
+            if cv is None or sc.get("b") is None:
+                continue
+            n += 1
+            # does the arm leave with an error?  follow straight-line successors until a branch / return / goto target that
+            # assigns a negative result
+            bid = sc["b"]
+            err = False
+            hops = 0
+            while bid is not None and hops < 6:
+                hops += 1
+                b = fp.bmap[bid]
+                for i, ln, x in cu.block_exprs(b):
+                    for m in walk(x):
+                        if m.get("k") == "bin" and m["op"] == "=" and (strip(m["l"]) or {}).get("k") == "var" and \
+                                (strip(m["r"]) or {}).get("k") == "int" and strip(m["r"])["v"] < 0:
+                            err = True
+                    if x.get("k") == "ret" and not cu.success_ret(x):
+                        err = True
+                t = b.get("term")
+                if err or (t is not None and t.get("k") in ("if", "switch", "and", "or", "while", "for")) or len(b["succ"]) != 1:
+                    break
+                if t is not None and t.get("k") == "break":
+                    break
+                bid = b["succ"][0].get("b")
+            ok = cv > K or err
+            f_ = None
+            if not ok:
+                f_ = Finding(PROP, rid, fp.name, "certificate version %d accepted" % (cv + 1),
+                             "%s:%s parse_single_cert(): the arm for version value %d (X.509 v%d) is not an error exit, but "
+                             "psX509AuthenticateCert applies the basicConstraints CA test only to issuers with version > %d: such a "
+                             "certificate - even one that says CA:FALSE - can issue certificates" % (fp.relfile, sw["term"]["ln"], cv, cv + 1, K),
+                             file=fp.relfile, line=sw["term"]["ln"])
+            res.instance(rid, "parse_single_cert: version value %d %s" % (cv, "refused" if err else "accepted (CA test applies)"), ok, finding=f_)
+    res.floor(rid, 3)
